@@ -72,6 +72,12 @@ CLAIMED.update({
          "Trusts: the rolling model and calendar in sim/tsim/src/rolling_sim.rs; the real file system on a private temp directory (runs with a file limit sleep 12 ms of real time per phase so that creation timestamps are distinguishable; this influences no scheduling choice).", "DESIGN.md 5 C16"),
 })
 
+CLAIMED.update({
+ "C14": ("json-sim", "deterministic simulation: seeded JSON-formatter configurations x seeded histories of span creation, later record calls, enter/exit and events with hostile strings and numeric extremes on 1-3 threads (a quarter of the runs under seeded schedules with a recording thread racing an emitting thread), aborted formatting as a fault; an independent strict RFC 8259 parser plus a field-value model as oracle",
+         "Seeded exploration of flatten_event/current_span/span_list/display options with hostile characters in messages, field names, string values, targets and span names, all numeric types at their extremes, NaN/inf, bools, errors, Debug/Display values, and span fields recorded in 0..n later steps; every record must be exactly one line, parse with an independent strict parser (unique keys at every level), carry every event field and span field with the value recorded under the documented type mapping (128-bit integers: digits as number or string), and list the current span's ancestor chain root to leaf. Sampling, not proof.",
+         "Trusts: the hand-written parser and the expectation tables in sim/tsim/src/json_sim.rs; under seeded schedules later-recorded fields are judged by an allowed-outcome set (absent or any value recorded on that span).", "DESIGN.md 5 C14"),
+})
+
 NOT_BUILT = {
 }
 
